@@ -61,11 +61,57 @@ type DocRun struct {
 	Color string `json:"c,omitempty"`
 }
 
-// DocElem is a paragraph (Runs; Heading 1-3 makes it a heading of its first run's text) or a table (Table).
+// DocNested is a table placed into cell (R, C) of the table it belongs to; Inner nests one more level.
+type DocNested struct {
+	R     int        `json:"r"`
+	C     int        `json:"c"`
+	Table [][]string `json:"table"`
+	Inner *DocNested `json:"inner,omitempty"`
+}
+
+// DocElem is a paragraph (Runs; Heading 1-3 makes it a heading of its first run's text) or a table (Table, with
+// tables nested in its cells; CellFmt formats the text of every non-empty top-level cell).
 type DocElem struct {
-	Runs    []DocRun   `json:"runs,omitempty"`
-	Heading int        `json:"h,omitempty"`
-	Table   [][]string `json:"table,omitempty"`
+	Runs    []DocRun    `json:"runs,omitempty"`
+	Heading int         `json:"h,omitempty"`
+	Table   [][]string  `json:"table,omitempty"`
+	Nested  []DocNested `json:"nested,omitempty"`
+	CellFmt *DocRun     `json:"cellfmt,omitempty"`
+}
+
+func gridOf(tb [][]string) (rows, cols int, grid [][]string) {
+	rows = len(tb)
+	for _, r := range tb {
+		if len(r) > cols {
+			cols = len(r)
+		}
+	}
+	grid = make([][]string, rows)
+	for i := range grid {
+		grid[i] = make([]string, cols)
+		copy(grid[i], tb[i])
+	}
+	return
+}
+
+func addNested(t *document.Table, n *DocNested, width int) {
+	rows, cols, grid := gridOf(n.Table)
+	if t == nil || rows == 0 || cols == 0 {
+		return
+	}
+	nt, err := t.AddNestedTable(n.R, n.C, &document.TableConfig{Rows: rows, Cols: cols, Width: width, Data: grid})
+	if err == nil && nt != nil && n.Inner != nil {
+		addNested(nt, n.Inner, width/2)
+	}
+}
+
+func (n *DocNested) texts(out *[]string) {
+	for _, row := range n.Table {
+		*out = append(*out, "[" + strings.Join(row, "|") + "]")
+	}
+	if n.Inner != nil {
+		n.Inner.texts(out)
+	}
 }
 
 type DocSpec struct {
@@ -94,22 +140,26 @@ func (d *DocSpec) build() *document.Document {
 	for _, e := range d.Elems {
 		switch {
 		case e.Table != nil:
-			rows := len(e.Table)
-			cols := 0
-			for _, r := range e.Table {
-				if len(r) > cols {
-					cols = len(r)
-				}
-			}
+			rows, cols, grid := gridOf(e.Table)
 			if rows == 0 || cols == 0 {
 				continue
 			}
-			grid := make([][]string, rows)
-			for i := range grid {
-				grid[i] = make([]string, cols)
-				copy(grid[i], e.Table[i])
+			t, err := doc.AddTable(&document.TableConfig{Rows: rows, Cols: cols, Width: 9000, Data: grid})
+			if err != nil || t == nil {
+				continue
 			}
-			doc.AddTable(&document.TableConfig{Rows: rows, Cols: cols, Width: 9000, Data: grid})
+			if e.CellFmt != nil {
+				for i := range grid {
+					for j, txt := range grid[i] {
+						if txt != "" {
+							t.SetCellFormattedText(i, j, txt, e.CellFmt.tf())
+						}
+					}
+				}
+			}
+			for k := range e.Nested {
+				addNested(t, &e.Nested[k], 4000)
+			}
 		case e.Heading > 0 && len(e.Runs) > 0:
 			doc.AddHeadingParagraph(e.Runs[0].T, e.Heading)
 		default:
@@ -157,6 +207,9 @@ func (d *DocSpec) texts() []string {
 		}
 		for _, row := range e.Table {
 			out = append(out, strings.Join(row, "|"))
+		}
+		for k := range e.Nested {
+			e.Nested[k].texts(&out)
 		}
 	}
 	if d.HasHeader {
